@@ -182,6 +182,13 @@ Goto(m, target) ==
   ELSE IF target = "DONE" THEN
        \* the current thread is over; an older thread goes on, otherwise the turn stops
        IF Len(m.th) > 1 THEN [m EXCEPT !.th = Tail(m.th)] ELSE [Halt(m) EXCEPT !.st = "stopping", !.safe = TRUE]
+  ELSE IF target \in DOMAIN Prog.labels THEN
+       \* a divert to a labelled gather: the flow goes on at the gather (which counts its own visit); the knot and
+       \* stitch it lies in are entered if the divert comes from outside them
+       LET b == Prog.labels[target].body
+           m1 == VisitAll(m, InChain(b), CurChain(m))
+           a == CurAct(m1) IN
+       SetAct(m1, [a EXCEPT !.fr = <<Frame(b)>>])
   ELSE IF ~IsKnot(target) THEN Fail(m, "divert target not found")
   ELSE LET m1 == Enter(m, target)
            a == CurAct(m1) IN
@@ -263,7 +270,11 @@ ExtCall(m, s) ==
   LET x == Prog.externs[s.f]
       vals == [i \in 1..Len(s.args) |-> Eval(m, s.args[i])]
       v == I(Lin(x.coef, vals, 1, x.add))
-      m1 == Advance([m EXCEPT !.calls = Append(m.calls, [f |-> s.f, args |-> vals])]) IN
+      \* A function that is not safe to run in look-ahead makes the engine deliver the line before it is called: a
+      \* newline waiting at the end of the stream is final from here on - glue or the end of a function can no longer
+      \* take it back.
+      out1 == IF ~x.safe /\ O!EndsInNewline(m.out) THEN Append(m.out, [k |-> "commit"]) ELSE m.out
+      m1 == Advance([m EXCEPT !.calls = Append(m.calls, [f |-> s.f, args |-> vals]), !.out = out1]) IN
   IF \E i \in 1..Len(vals) : vals[i].t = "error" THEN Fail(m, "argument")
   ELSE Deliver(m1, [mode |-> s.mode, x |-> s.x, e |-> s.e], v)
 
